@@ -315,8 +315,9 @@ func VerifyHashed(pubx, puby, e, r, s []byte) (bool, error) {
 	}
 
 	// done sanity check
+	// t may have leading zero bytes; ScalarMixedMult_Unsafe needs exactly 32 bytes
 	var tBytes []byte
-	tBytes = t.Bytes()
+	tBytes = ensure32Bytes(&t)
 
 	result, err = internal.ScalarMixedMult_Unsafe(s, pub, tBytes)
 	if err != nil {
